@@ -799,5 +799,276 @@ theorem argmaxU8Avx2_panic_iff (o : Cmp UInt8) (rows : Nat) (f : Nat → Nat →
     · simp [h2]
     · simp [h1, h2] <;> omega
 
+/-! ### Pipelines and dispatcher arms: every backend is admissible and agrees with the generic one -/
+
+/-- the column counts a backend is instantiated with (`PositiveLength`, `MultipleOf<U16>`, `U32`) -/
+def Supported : Backend → Nat → Prop
+  | .generic, C => 0 < C
+  | .sse2, C => ∃ q, 0 < q ∧ C = 16 * q
+  | .avx2, C => C = 32
+
+theorem disp_tables :
+    dispF32Argmax = [.generic, .sse2, .avx2] ∧ dispF32Max = [.generic, .generic, .avx2] ∧
+    dispU8Argmax = [.generic, .generic, .avx2] ∧ dispU8Max = [.generic, .generic, .avx2] ∧
+    pipelineShapesChecked = true := by decide
+
+/-- two optional maxima agree: both absent, or both present and equivalent -/
+def MaxAgree (o : Cmp α) (a b : Option α) : Prop :=
+  (a = none ∧ b = none) ∨ ∃ v w, a = some v ∧ b = some w ∧ o.le v w = true ∧ o.le w v = true
+
+theorem maxAgree_of_specs (o : Cmp α) (rows C : Nat) (f : Nat → Nat → α) (a b : Option α)
+    (ha0 : a = none ↔ rows = 0) (hb0 : b = none ↔ rows = 0)
+    (ha : ∀ v, a = some v → IsMax o rows C f v) (hb : ∀ v, b = some v → IsMax o rows C f v) :
+    MaxAgree o a b := by
+  by_cases h : rows = 0
+  · exact Or.inl ⟨ha0.2 h, hb0.2 h⟩
+  · right
+    cases ha' : a with
+    | none => exact absurd (ha0.1 ha') h
+    | some v =>
+      cases hb' : b with
+      | none => exact absurd (hb0.1 hb') h
+      | some w =>
+        exact ⟨v, w, rfl, rfl, (ha v ha').equiv (hb w hb')⟩
+
+theorem MaxAgree.eq {o : Cmp α} (hanti : ∀ a b, o.le a b = true → o.le b a = true → a = b)
+    {a b : Option α} (h : MaxAgree o a b) : a = b := by
+  rcases h with ⟨rfl, rfl⟩ | ⟨v, w, rfl, rfl, h1, h2⟩
+  · rfl
+  · rw [hanti v w h1 h2]
+
+/-- every concrete pipeline's float `argmax` designates a cell holding the maximum -/
+theorem pipeArgmaxF32_spec (o : Cmp α) (ht : o.Total) (hbot : ∀ v, o.le o.negInf v = true)
+    (b : Backend) (C : Nat) (hsup : Supported b C) (maxIndex rows : Nat) (hle : rows ≤ 4294967296)
+    (f : Nat → Nat → α) (p : Coord) (h : pipeArgmaxF32 o b C maxIndex rows f = .ok (some p)) :
+    HoldsMax o rows C f p := by
+  cases b with
+  | generic =>
+    simp only [pipeArgmaxF32, Except.ok.injEq] at h
+    exact argmaxGeneric_spec o ht C rows hsup f p h
+  | sse2 =>
+    obtain ⟨q, hq, rfl⟩ := hsup
+    exact argmaxSse2_spec o ht hbot q hq maxIndex rows hle f p h
+  | avx2 =>
+    cases hsup
+    exact argmaxF32Avx2_spec o ht maxIndex rows hle f p h
+
+theorem pipeArgmaxF32_none_iff (o : Cmp α) (b : Backend) (C maxIndex rows : Nat)
+    (hmi : maxIndex ≤ 4294967295) (f : Nat → Nat → α) :
+    pipeArgmaxF32 o b C maxIndex rows f = .ok none ↔ rows = 0 := by
+  cases b with
+  | generic => simp [pipeArgmaxF32, argmaxGeneric_eq_none_iff]
+  | sse2 => simp [pipeArgmaxF32, argmaxSse2_none_iff, hmi]
+  | avx2 => simp [pipeArgmaxF32, argmaxF32Avx2_none_iff, hmi]
+
+/-- every concrete pipeline's float `max` is the attained maximum -/
+theorem pipeMaxF32_spec (o : Cmp α) (ht : o.Total) (hbot : ∀ v, o.le o.negInf v = true)
+    (b : Backend) (C : Nat) (hsup : Supported b C) (maxIndex rows : Nat) (hle : rows ≤ 4294967296)
+    (f : Nat → Nat → α) (v : α) (h : pipeMaxF32 o b C maxIndex rows f = .ok (some v)) :
+    IsMax o rows C f v := by
+  cases b with
+  | generic =>
+    simp only [pipeMaxF32, Except.ok.injEq] at h
+    exact maxGeneric_spec o ht C rows hsup f v h
+  | sse2 =>
+    obtain ⟨q, hq, rfl⟩ := hsup
+    simp only [pipeMaxF32] at h
+    split at h
+    · cases h
+    next a ha =>
+    simp only [Except.ok.injEq, maxOfArgmax, Option.map_eq_some_iff] at h
+    obtain ⟨p, rfl, rfl⟩ := h
+    exact (argmaxSse2_spec o ht hbot q hq maxIndex rows hle f p ha).isMax
+  | avx2 =>
+    cases hsup
+    simp only [pipeMaxF32, Except.ok.injEq] at h
+    exact maxF32Avx2_spec o ht rows f v h
+
+theorem pipeMaxF32_none_iff (o : Cmp α) (b : Backend) (C maxIndex rows : Nat)
+    (hmi : maxIndex ≤ 4294967295) (f : Nat → Nat → α) :
+    pipeMaxF32 o b C maxIndex rows f = .ok none ↔ rows = 0 := by
+  cases b with
+  | generic => simp [pipeMaxF32, maxGeneric_eq_none_iff]
+  | sse2 =>
+    simp only [pipeMaxF32]
+    split
+    · next e he =>
+      have := (argmaxSse2_panic_iff o C maxIndex rows f).1 ⟨e, he⟩
+      omega
+    · next a ha =>
+      cases a with
+      | none =>
+        have := (argmaxSse2_none_iff o C maxIndex rows f).1 ha
+        simp [maxOfArgmax, this.2]
+      | some p =>
+        have : rows ≠ 0 := by
+          intro h0
+          have := (argmaxSse2_none_iff o C maxIndex rows f).2 ⟨hmi, h0⟩
+          rw [this] at ha; cases ha
+        simp [maxOfArgmax, this]
+  | avx2 => simp [pipeMaxF32, maxF32Avx2_eq_none_iff]
+
+/-- every dispatcher arm's float `argmax` designates a cell holding the maximum -/
+theorem dispArgmaxF32_spec (o : Cmp α) (ht : o.Total) (hbot : ∀ v, o.le o.negInf v = true)
+    (arm : Backend) (maxIndex rows : Nat) (hle : rows ≤ 4294967296)
+    (f : Nat → Nat → α) (p : Coord) (h : dispArgmaxF32 o arm maxIndex rows f = .ok (some p)) :
+    HoldsMax o rows 32 f p := by
+  obtain ⟨t1, _⟩ := disp_tables
+  cases arm <;> simp only [dispArgmaxF32, kernelOf, t1, Backend.idx, List.getD_cons_zero,
+    List.getD_cons_succ] at h
+  · simp only [Except.ok.injEq] at h
+    exact argmaxGeneric_spec o ht 32 rows (by omega) f p h
+  · exact argmaxSse2_spec o ht hbot 2 (by omega) maxIndex rows hle f p h
+  · exact argmaxF32Avx2_spec o ht maxIndex rows hle f p h
+
+theorem dispArgmaxF32_none_iff (o : Cmp α) (arm : Backend) (maxIndex rows : Nat)
+    (hmi : maxIndex ≤ 4294967295) (f : Nat → Nat → α) :
+    dispArgmaxF32 o arm maxIndex rows f = .ok none ↔ rows = 0 := by
+  obtain ⟨t1, _⟩ := disp_tables
+  cases arm <;> simp only [dispArgmaxF32, kernelOf, t1, Backend.idx, List.getD_cons_zero,
+    List.getD_cons_succ]
+  · simp [argmaxGeneric_eq_none_iff]
+  · simp [argmaxSse2_none_iff, hmi]
+  · simp [argmaxF32Avx2_none_iff, hmi]
+
+theorem dispMaxF32_none_iff (o : Cmp α) (arm : Backend) (rows : Nat) (f : Nat → Nat → α) :
+    dispMaxF32 o arm rows f = none ↔ rows = 0 := by
+  obtain ⟨_, t2, _⟩ := disp_tables
+  cases arm <;> simp only [dispMaxF32, kernelOf, t2, Backend.idx, List.getD_cons_zero,
+    List.getD_cons_succ]
+  · exact maxGeneric_eq_none_iff o 32 rows f
+  · exact maxGeneric_eq_none_iff o 32 rows f
+  · exact maxF32Avx2_eq_none_iff o rows f
+
+/-- every dispatcher arm's float `max` is the attained maximum -/
+theorem dispMaxF32_spec (o : Cmp α) (ht : o.Total) (arm : Backend) (rows : Nat)
+    (f : Nat → Nat → α) (v : α) (h : dispMaxF32 o arm rows f = some v) : IsMax o rows 32 f v := by
+  obtain ⟨_, t2, _⟩ := disp_tables
+  cases arm <;> simp only [dispMaxF32, kernelOf, t2, Backend.idx, List.getD_cons_zero,
+    List.getD_cons_succ] at h
+  · exact maxGeneric_spec o ht 32 rows (by omega) f v h
+  · exact maxGeneric_spec o ht 32 rows (by omega) f v h
+  · exact maxF32Avx2_spec o ht rows f v h
+
+/-- all dispatcher arms report the same float maximum as the generic backend (equivalent values;
+    identical under antisymmetry, see `MaxAgree.eq`) -/
+theorem dispMaxF32_agrees (o : Cmp α) (ht : o.Total) (arm : Backend) (rows : Nat)
+    (f : Nat → Nat → α) : MaxAgree o (dispMaxF32 o arm rows f) (maxGeneric o 32 rows f) :=
+  maxAgree_of_specs o rows 32 f _ _ (dispMaxF32_none_iff o arm rows f)
+    (maxGeneric_eq_none_iff o 32 rows f) (dispMaxF32_spec o ht arm rows f)
+    (maxGeneric_spec o ht 32 rows (by omega) f)
+
+/-- u8: the comparisons of `u8` -/
+def IsU8 (o : Cmp UInt8) : Prop :=
+  (∀ a b, o.le a b = decide (a ≤ b)) ∧ (∀ a b, o.lt a b = decide (a < b)) ∧ o.zero = 0
+
+theorem IsU8.total {o : Cmp UInt8} (h : IsU8 o) : o.Total := by
+  refine ⟨?_, ?_, ?_⟩
+  · intro a b; rw [h.1, h.1]; simp only [decide_eq_true_eq, UInt8.le_iff_toNat_le]; omega
+  · intro a b c; rw [h.1, h.1, h.1]; simp only [decide_eq_true_eq, UInt8.le_iff_toNat_le]; omega
+  · intro a b
+    rw [h.1, h.2.1]
+    by_cases hab : a < b
+    · have : ¬ b ≤ a := by rw [UInt8.le_iff_toNat_le]; rw [UInt8.lt_iff_toNat_lt] at hab; omega
+      simp [hab, this]
+    · have : b ≤ a := by rw [UInt8.le_iff_toNat_le]; rw [UInt8.lt_iff_toNat_lt] at hab; omega
+      simp [hab, this]
+
+theorem IsU8.anti {o : Cmp UInt8} (h : IsU8 o) :
+    ∀ a b, o.le a b = true → o.le b a = true → a = b := by
+  intro a b
+  rw [h.1, h.1]
+  simp only [decide_eq_true_eq, UInt8.le_iff_toNat_le]
+  intro h1 h2
+  exact UInt8.toNat_inj.1 (by omega)
+
+theorem IsU8.zero_le {o : Cmp UInt8} (h : IsU8 o) : ∀ v, o.le o.zero v = true := by
+  intro v
+  rw [h.1, h.2.2]
+  simp [UInt8.le_iff_toNat_le]
+
+/-- every concrete pipeline's u8 `argmax` designates a cell holding the maximum -/
+theorem pipeArgmaxU8_spec (o : Cmp UInt8) (ho : IsU8 o) (b : Backend) (C : Nat)
+    (hsup : Supported b C) (rows : Nat) (f : Nat → Nat → UInt8) (p : Coord)
+    (h : pipeArgmaxU8 o b C rows f = .ok (some p)) : HoldsMax o rows C f p := by
+  have hC : 0 < C := by
+    cases b with
+    | generic => exact hsup
+    | sse2 => obtain ⟨q, hq, rfl⟩ := hsup; omega
+    | avx2 => cases hsup; omega
+  cases b with
+  | generic =>
+    simp only [pipeArgmaxU8, Except.ok.injEq] at h
+    exact argmaxGeneric_spec o ho.total C rows hC f p h
+  | sse2 =>
+    simp only [pipeArgmaxU8, Except.ok.injEq] at h
+    exact argmaxGeneric_spec o ho.total C rows hC f p h
+  | avx2 =>
+    cases hsup
+    exact argmaxU8Avx2_spec o ho.1 rows f p h
+
+/-- every concrete pipeline's u8 `max` is the attained maximum -/
+theorem pipeMaxU8_spec (o : Cmp UInt8) (ho : IsU8 o) (b : Backend) (C : Nat)
+    (hsup : Supported b C) (rows : Nat) (f : Nat → Nat → UInt8) (v : UInt8)
+    (h : pipeMaxU8 o b C rows f = some v) : IsMax o rows C f v := by
+  have hC : 0 < C := by
+    cases b with
+    | generic => exact hsup
+    | sse2 => obtain ⟨q, hq, rfl⟩ := hsup; omega
+    | avx2 => cases hsup; omega
+  cases b with
+  | generic => exact maxGeneric_spec o ho.total C rows hC f v h
+  | sse2 => exact maxGeneric_spec o ho.total C rows hC f v h
+  | avx2 =>
+    cases hsup
+    exact maxU8Avx2_spec o ho.total ho.anti ho.zero_le rows f v h
+
+theorem pipeMaxU8_none_iff (o : Cmp α) (b : Backend) (C rows : Nat) (f : Nat → Nat → α) :
+    pipeMaxU8 o b C rows f = none ↔ rows = 0 := by
+  cases b with
+  | generic => exact maxGeneric_eq_none_iff o C rows f
+  | sse2 => exact maxGeneric_eq_none_iff o C rows f
+  | avx2 => exact maxU8Avx2_eq_none_iff o rows f
+
+/-- every dispatcher arm's u8 `argmax` designates a cell holding the maximum -/
+theorem dispArgmaxU8_spec (o : Cmp UInt8) (ho : IsU8 o) (arm : Backend) (rows : Nat)
+    (f : Nat → Nat → UInt8) (p : Coord) (h : dispArgmaxU8 o arm rows f = .ok (some p)) :
+    HoldsMax o rows 32 f p := by
+  obtain ⟨_, _, t3, _⟩ := disp_tables
+  cases arm <;> simp only [dispArgmaxU8, kernelOf, t3, Backend.idx, List.getD_cons_zero,
+    List.getD_cons_succ] at h
+  · simp only [Except.ok.injEq] at h
+    exact argmaxGeneric_spec o ho.total 32 rows (by omega) f p h
+  · simp only [Except.ok.injEq] at h
+    exact argmaxGeneric_spec o ho.total 32 rows (by omega) f p h
+  · exact argmaxU8Avx2_spec o ho.1 rows f p h
+
+theorem dispMaxU8_none_iff (o : Cmp α) (arm : Backend) (rows : Nat) (f : Nat → Nat → α) :
+    dispMaxU8 o arm rows f = none ↔ rows = 0 := by
+  obtain ⟨_, _, _, t4, _⟩ := disp_tables
+  cases arm <;> simp only [dispMaxU8, kernelOf, t4, Backend.idx, List.getD_cons_zero,
+    List.getD_cons_succ]
+  · exact maxGeneric_eq_none_iff o 32 rows f
+  · exact maxGeneric_eq_none_iff o 32 rows f
+  · exact maxU8Avx2_eq_none_iff o rows f
+
+/-- every dispatcher arm's u8 `max` is the attained maximum -/
+theorem dispMaxU8_spec (o : Cmp UInt8) (ho : IsU8 o) (arm : Backend) (rows : Nat)
+    (f : Nat → Nat → UInt8) (v : UInt8) (h : dispMaxU8 o arm rows f = some v) :
+    IsMax o rows 32 f v := by
+  obtain ⟨_, _, _, t4, _⟩ := disp_tables
+  cases arm <;> simp only [dispMaxU8, kernelOf, t4, Backend.idx, List.getD_cons_zero,
+    List.getD_cons_succ] at h
+  · exact maxGeneric_spec o ho.total 32 rows (by omega) f v h
+  · exact maxGeneric_spec o ho.total 32 rows (by omega) f v h
+  · exact maxU8Avx2_spec o ho.total ho.anti ho.zero_le rows f v h
+
+/-- all dispatcher arms report the same u8 maximum as the generic backend -/
+theorem dispMaxU8_agrees (o : Cmp UInt8) (ho : IsU8 o) (arm : Backend) (rows : Nat)
+    (f : Nat → Nat → UInt8) : dispMaxU8 o arm rows f = maxGeneric o 32 rows f :=
+  (maxAgree_of_specs o rows 32 f _ _ (dispMaxU8_none_iff o arm rows f)
+    (maxGeneric_eq_none_iff o 32 rows f) (dispMaxU8_spec o ho arm rows f)
+    (maxGeneric_spec o ho.total 32 rows (by omega) f)).eq ho.anti
+
 end C07
 end LMV
